@@ -48,6 +48,7 @@ func (z *E12) MulBy014(c0, c1, c4 *E2) *E12 {
 
 	var a, b E6
 	var d E2
+	c0Copy := *c0 // c0 may point to a coordinate of z, which is written before its last use
 
 	a.Set(&z.C0)
 	a.MulBy01(c0, c1)
@@ -57,7 +58,7 @@ func (z *E12) MulBy014(c0, c1, c4 *E2) *E12 {
 	d.Add(c1, c4)
 
 	z.C1.Add(&z.C1, &z.C0)
-	z.C1.MulBy01(c0, &d)
+	z.C1.MulBy01(&c0Copy, &d)
 	z.C1.Sub(&z.C1, &a)
 	z.C1.Sub(&z.C1, &b)
 	z.C0.MulByNonResidue(&b)
@@ -71,6 +72,7 @@ func (z *E12) MulBy01(c0, c1 *E2) *E12 {
 
 	var a, b E6
 	var d E2
+	c0Copy := *c0 // c0 may point to a coordinate of z, which is written before its last use
 
 	a.Set(&z.C0)
 	a.MulBy01(c0, c1)
@@ -79,7 +81,7 @@ func (z *E12) MulBy01(c0, c1 *E2) *E12 {
 	d.SetOne().Add(c1, &d)
 
 	z.C1.Add(&z.C1, &z.C0)
-	z.C1.MulBy01(c0, &d)
+	z.C1.MulBy01(&c0Copy, &d)
 	z.C1.Sub(&z.C1, &a)
 	z.C1.Sub(&z.C1, &b)
 	z.C0.MulByNonResidue(&b)
